@@ -139,7 +139,7 @@ def cmul(ar, ai, br, bi):
 # =========================================================================== U17
 class WakePotential(EFMethod):
     name = 'vfps::ElectricField::wakePotential'
-    tags = {'C05', 'C06', 'C17', 'C18'}
+    tags = {'C05', 'C06', 'C07', 'C17', 'C18'}
     ghosts = {'b': 'int', 'x': 'int', 'i': 'int', 'k': 'int'}
     uf_mul = True
 
@@ -175,9 +175,9 @@ class WakePotential(EFMethod):
         inb = And(b >= 0, b < nb, x >= 0, x < nx)
         out += [('train.bunch', {'C06', 'C18'}, Implies(inb, z3.Select(pad_in, bk * sp + x) == cx.old.sel('this._phasespace._projection', b * nx + x))),
                 ('train.zero', {'C06', 'C18'}, Implies(And(k >= 0, k < nmax, outside_all(cx, k)), z3.Select(pad_in, k) == 0)),
-                ('product', {'C06', 'C05', 'C18'}, Implies(And(i >= 0, i < nmax / 2), And(z3.Select(wre, i) == pre_, z3.Select(wim, i) == pim_))),
-                ('halfspectrum', {'C06', 'C18'}, Implies(And(i >= nmax / 2, i < nmax), And(z3.Select(wre, i) == 0, z3.Select(wim, i) == 0))),
-                ('readback', {'C06', 'C05', 'C18'}, Implies(inb, cx.sel('this._wakepotential', b * nx + x) ==
+                ('product', {'C06', 'C05', 'C07', 'C18'}, Implies(And(i >= 0, i < nmax / 2), And(z3.Select(wre, i) == pre_, z3.Select(wim, i) == pim_))),
+                ('halfspectrum', {'C06', 'C07', 'C18'}, Implies(And(i >= nmax / 2, i < nmax), And(z3.Select(wre, i) == 0, z3.Select(wim, i) == 0))),
+                ('readback', {'C06', 'C05', 'C07', 'C18'}, Implies(inb, cx.sel('this._wakepotential', b * nx + x) ==
                                                             models.FMUL(cx.rf('this._wakescaling'), models.IDFT_H(wre, wim, nmax, nmax / 2, bk * sp + x)))),
                 ('result', {'C05', 'C06'}, And(z3.BoolVal(isinstance(cx.ret, PtrV) and cx.ret.region == cx.R('this._wakepotential')), cx.ret.off == 0)),
                 # class invariant re-established (so that the next call is again history free)
